@@ -32,8 +32,10 @@ class Outcome:
 
 
 def finding_key(h, parsed):
-    first = parsed["failed_checks"][0]
-    return "%s:%s" % (h.group or h.name, slug(first["description"]))
+    """harness family + the SET of distinct failing descriptions: a different (or additional) failing assertion in
+    the same harness yields a different key, so it is not covered by a known-findings entry for the old one."""
+    descs = sorted(set(c["description"] for c in parsed["failed_checks"]))
+    return "%s:%s" % (h.group or h.name, "+".join(slug(d)[:60] for d in descs)[:200])
 
 
 def handle_results(prop, results, runner, scratch, crate_dir, harness_file_of, outcome, package_args=None,
@@ -59,7 +61,7 @@ def handle_results(prop, results, runner, scratch, crate_dir, harness_file_of, o
             continue
         if h.expect == "fail":
             # vacuity twin: must be FAILED, and only by its own witness assertion
-            if r["status"] == "fail" and all("vacuity witness" in c["description"] for c in p["failed_checks"]):
+            if r["status"] == "fail" and any("vacuity witness" in c["description"] for c in p["failed_checks"]):
                 rec["verdict"] = "twin-failed-as-required"
                 outcome.evaluations += 1
             else:
